@@ -71,14 +71,23 @@ def plan(tier, seed):
     return units
 
 
+def _dense_top(ctx, dense_q, dense_t):
+    """Upper end of the dense length range.  The property's 0..4 KiB dense range is swept in the default build;
+    the other builds differ from it only in the SM4 block routines (1, 4 or 8 blocks per step), so their dense
+    range is shorter and the longer lengths are sampled."""
+    if ctx.tier == 'quick':
+        return dense_q
+    return {'asan': dense_t, 'asan-small': min(dense_t, 1024)}.get(ctx.flavour, min(dense_t, 640))
+
+
 def _lens(ctx, u, dense_q=96, dense_t=4096, big=True, step=1, minimum=0):
     """The message lengths of this unit: dense range + block-edge specials + seeded larger ones."""
-    dense = dense_q if ctx.tier == 'quick' else dense_t
+    dense = _dense_top(ctx, dense_q, dense_t)
     ls = list(range(minimum, dense + 1, step))
     sp = [127, 128, 129, 255, 256, 257, 511, 512, 513, 1023, 1024, 1025, 2047, 2048, 2049, 4095, 4096, 4097]
     ls += [v for v in sp if v > dense and v % step == 0]
     r = ctx.rng
-    extra = [r.randint(dense + 1, 4096) for _ in range(4)] if dense < 4096 else []
+    extra = [r.randint(dense + 1, 4096) for _ in range(4 if ctx.tier == 'quick' else 24)] if dense < 4096 else []
     if big:
         extra += [r.randint(4097, 20000) for _ in range(1 if ctx.tier == 'quick' else 3)]
     ls += [v - v % step for v in extra]
@@ -87,7 +96,8 @@ def _lens(ctx, u, dense_q=96, dense_t=4096, big=True, step=1, minimum=0):
 
 
 def _partitions(rng, n, unit=16, bytes_max=200):
-    """Ways of cutting n bytes into update calls, smallest chunks first."""
+    """Ways of cutting n bytes into update calls, smallest chunks first.  Up to 512 bytes: byte-wise, seeded
+    random (with empty updates), block-edge and single-call; longer messages: seeded random and single-call."""
     parts = []
     if 1 < n <= bytes_max:
         parts.append(('bytes', [1] * n))
@@ -96,14 +106,18 @@ def _partitions(rng, n, unit=16, bytes_max=200):
         if rng.random() < 0.08:
             cuts.append(0)
             continue
-        k = min(left, rng.choice([1, 2, 3, 5, 7, unit - 1, unit, unit + 1, 2 * unit - 1, 2 * unit, 2 * unit + 1, 33,
-                                  rng.randint(1, max(1, left)), rng.randint(1, max(1, left))]))
+        if len(cuts) >= 24:
+            k = left
+        else:
+            k = min(left, rng.choice([1, 2, 3, 5, 7, unit - 1, unit, unit + 1, 2 * unit - 1, 2 * unit, 2 * unit + 1, 33,
+                                      rng.randint(1, max(1, left)), rng.randint(1, max(1, left)),
+                                      rng.randint(1, max(1, left))]))
         cuts.append(k)
         left -= k
     if rng.random() < 0.3:
         cuts.append(0)
     parts.append(('random', cuts))
-    if n > unit:
+    if unit < n <= 512:
         j = rng.randint(1, max(1, n // unit))
         e = min(n, max(0, unit * j + rng.choice([-1, 0, 1])))
         parts.append(('edge', [e, n - e]))
@@ -615,7 +629,7 @@ def u_cfb(ctx, u):
     lib = ctx.lib
     sbs = [s for s in range(1, 17) if (s - 1) % u['step'] == u['lo']]
     for sb in sbs:
-        dense_t = 4096 if sb in (1, 8, 16) else 1024
+        dense_t = 4096 if sb == 16 else (1024 if sb in (1, 8) else 512)
         sub = {'lo': 0, 'step': 1}
         for n in _lens(ctx, sub, dense_q=80, dense_t=dense_t, big=(sb >= 8)):
             key, iv, msg = _rand_key(ctx), ctx.rng.randbytes(16), ctx.rng.randbytes(n)
@@ -870,9 +884,9 @@ def _gcm_mk(ctx, direction, key, iv, aad, taglen):
     return mk
 
 
-def _gcm_stream_cases(ctx, u, sub, taglens):
+def _gcm_stream_cases(ctx, u, sub, taglens, dense_t=4096, big=True):
     out = []
-    for n in _lens(ctx, sub):
+    for n in _lens(ctx, sub, dense_t=dense_t, big=big):
         ivlen, _t, aadlen = _gcm_params(ctx, 0)
         taglen = ctx.rng.choice(taglens)
         key, iv, aad, msg = _rand_key(ctx), ctx.rng.randbytes(ivlen), ctx.rng.randbytes(aadlen), ctx.rng.randbytes(n)
@@ -923,7 +937,7 @@ def u_gcm_stream_shorttag(ctx, u):
     first chunking with a piece longer than the tag is tried."""
     taglen = 12 + u['lo'] % 4
     sub = {'lo': u['lo'] // 4, 'step': max(1, u['step'] // 4)}
-    cases = _gcm_stream_cases(ctx, u, sub, [taglen])
+    cases = _gcm_stream_cases(ctx, u, sub, [taglen], dense_t=512, big=False)
     for c in cases:
         _gcm_stream_run(ctx, c, enc=True, dec='small')
     for c in sorted(cases, key=lambda c: len(c[3])):
